@@ -20,8 +20,11 @@
 (*   RuleVariant = "private": after the first fix: commit (and the name is *)
 (*                 private to that scope) - reads from a nested function   *)
 (*                 are still not counted                                   *)
-(*   RuleVariant = "tree":    all references of the binding are counted,   *)
-(*                 those from nested scopes included                       *)
+(*   RuleVariant = "noaug":   all references of the binding are counted,   *)
+(*                 those from nested scopes included - but an augmented    *)
+(*                 assignment `x += 1` after the construct, which reads x, *)
+(*                 is not recorded as a reference                          *)
+(*   RuleVariant = "tree":    ... and augmented assignments count as reads *)
 (* A dropped binding is replaced by its value: inside `not ...` or a       *)
 (* comparison an operator expression then needs parentheses of its own     *)
 (* (vkind = "op"); the harness executes every program before and after.    *)
@@ -37,22 +40,26 @@ VKinds == {"atom", "op"}                       \* the assigned value: a call | a
 InScopeReads == {"body", "else", "after"}      \* reads in the scope of the assignment itself
 Nested == "nested"                             \* a read from a function defined inside that scope (a closure)
 Outside == "outside"                           \* a read through the global / enclosing / class namespace, after the construct ran
+Aug == "aug"                                   \* `x += 1` after the construct: reads x although name resolution records no access
 
 CanReadOutside(s) == s \in {"global", "nonlocal", "class"}
 
 Programs == {[scope |-> s, test |-> t, value |-> v, vkind |-> vk, reads |-> R] :
-               s \in Scopes, t \in Tests, v \in Values, vk \in VKinds, R \in SUBSET (InScopeReads \cup {Outside, Nested})}
+               s \in Scopes, t \in Tests, v \in Values, vk \in VKinds, R \in SUBSET (InScopeReads \cup {Outside, Nested, Aug})}
 WellFormed(p) == /\ (Outside \in p.reads) => CanReadOutside(p.scope)
                  /\ (Nested \in p.reads) => p.scope \in {"module", "function"}
+                 /\ (Aug \in p.reads) => p.value # "none"          \* `None += 1` raises with or without the rewrite
 
 \* the rule of leave_If: `_single_access` counts the accesses recorded for the name in the assigning scope (the test
 \* itself is one of them)
 AccessesInScope(p) == 1 + Cardinality(p.reads \cap InScopeReads)
-References(p) == 1 + Cardinality(p.reads \cap (InScopeReads \cup {Nested}))     \* of the binding, from any scope nested in its own
+RecordedReferences(p) == 1 + Cardinality(p.reads \cap (InScopeReads \cup {Nested}))     \* of the binding, from any scope nested in its own
+References(p) == RecordedReferences(p) + (IF Aug \in p.reads THEN 1 ELSE 0)
 Private(p) == p.scope \in {"module", "function"}
 RuleDrops(p) ==
   CASE RuleVariant = "pinned"  -> AccessesInScope(p) = 1
     [] RuleVariant = "private" -> AccessesInScope(p) = 1 /\ Private(p)
+    [] RuleVariant = "noaug"   -> RecordedReferences(p) = 1 /\ Private(p)
     [] OTHER                   -> References(p) = 1 /\ Private(p)
 
 \* dropping the binding is behaviour preserving iff nobody reads it
